@@ -242,6 +242,20 @@ def r_decision(c):
         for s in fast[0].body), "R16-DECISION",
             "utils.are_shape_components_equal", "integer-fast-path-is-equality", where,
             "the integer fast path is not plain equality of two integers")
+    # every way out of the decision procedure is one of the two exact deciders:
+    # integer equality under the isinstance guard, or the affine test.  Any other
+    # return (a shortcut on parameter sets, ranks, identity, ...) answers without
+    # asking whether the difference is identically zero
+    from pta.order import _own_nodes
+    for r in [x for x in _own_nodes(fd) if isinstance(x, ast.Return)]:
+        in_fast = fast and any(r in list(ast.walk(s_)) for s_ in fast[0].body)
+        is_final = r is last
+        c.check(in_fast or is_final, "R16-DECISION", "utils.are_shape_components_equal",
+                f"return-is-an-exact-decider:{m.frag(r, 40)}", m.loc("pytato.utils", r),
+                f"`{m.frag(r, 60)}` decides equality of two shape components without "
+                "going through integer equality or the zero-difference test: "
+                "components that are equal for every valuation can be declared "
+                "different (or vice versa)")
     sp = m.func("pytato.utils._create_size_param_space")
     c.check(bool(kwarg(sp, "params", f"sorted({sp.args.args[0].arg})",
                        func="create_from_names")), "R16-DECISION",
@@ -276,10 +290,66 @@ def r_decision(c):
                 f"{what} no longer decides shape equality through the affine comparison")
 
 
+def r_bindnames(c):
+    """symbolic shape components enter a lowered index lambda under names that
+    cannot clash with the operand bindings or with each other"""
+    m = c.model
+    LOW = "pytato.transform.lower_to_index_lambda"
+    n = 0
+    for mi, fd in m.all_functions(modules=[LOW]):
+        for call in ast.walk(fd):
+            if not (isinstance(call, ast.Call)
+                    and ast.unparse(call.func).split(".")[-1] == "dim_to_index_lambda_components"):
+                continue
+            n += 1
+            qn = m.qualname(fd).replace("pytato.", "", 1)
+            where = m.loc(mi, call)
+            inst = m.frag(call.args[0], 40) if call.args else "?"
+            gen = call.args[1] if len(call.args) > 1 else next(
+                (k.value for k in call.keywords if k.arg == "vng"), None)
+            if gen is None:
+                c.violation("R16-BINDNAMES", qn, f"{inst}:shared-generator", where,
+                            "dim_to_index_lambda_components is called without a name "
+                            "generator: every symbolic component is bound as `_in`, so two "
+                            "components (or a component and an operand) overwrite each "
+                            "other in the lambda's bindings")
+                continue
+            # resolve the generator: UniqueNameGenerator(<seed>) directly or via a local
+            src = gen
+            asg = None
+            if isinstance(gen, ast.Name):
+                cands = [a for a in ast.walk(fd) if isinstance(a, (ast.Assign, ast.AnnAssign))
+                         and a.value is not None and any(
+                             isinstance(t, ast.Name) and t.id == gen.id
+                             for t in (a.targets if isinstance(a, ast.Assign) else [a.target]))]
+                if len(cands) == 1:
+                    asg = cands[0]
+                    src = asg.value
+            seeded = isinstance(src, ast.Call) and ast.unparse(src.func).split(".")[-1] \
+                == "UniqueNameGenerator" and len(src.args) == 1 \
+                and ast.unparse(src.args[0]) not in ("set()", "()", "[]", "{}")
+            c.check(seeded, "R16-BINDNAMES", qn, f"{inst}:generator-seeded-with-operand-names",
+                    where,
+                    f"the generator handed over is `{m.frag(src, 50)}`: it does not know the "
+                    "names of the operand bindings, so a size parameter can be bound under "
+                    "an operand's name")
+            # calls in a loop share one generator created outside the loop
+            loop = call
+            while loop is not fd and not isinstance(loop, (ast.For, ast.While)):
+                loop = loop._parent
+            if loop is not fd:
+                shared = asg is not None and not any(asg is x for x in ast.walk(loop))
+                c.check(shared, "R16-BINDNAMES", qn, f"{inst}:one-generator-for-the-loop", where,
+                        "the call sits in a loop but its name generator is created per "
+                        "iteration: later components reuse the names of earlier ones")
+    if n < 2:
+        raise AnalysisError(f"only {n} dim_to_index_lambda_components call sites in lowering")
+
+
 SPEC = Spec(
     prop="C16",
-    rules=[r_route, r_decision],
-    floors={"R16-ROUTE": 12, "R16-DECISION": 11},
+    rules=[r_route, r_decision, r_bindnames],
+    floors={"R16-ROUTE": 12, "R16-DECISION": 13, "R16-BINDNAMES": 3},
     explanation=(
         "R16-ROUTE (who-may-compare): local shape typing (X.shape / newshape, "
         "subscripts and slices of it, variables assigned from it, parameters and "
